@@ -21,7 +21,7 @@ LEVEL_NOTE = ("G = 3 virtual s on the in-memory lane, 30 s on the kernel lane (e
               "timer, so timing is distorted; outcomes are not); kernel lane uses AF_UNIX stream pairs, RST there is close-with-unread-data")
 ASSUMPTIONS = ["abort is modelled as immediate RST that discards bytes in flight"]
 
-SCRIPTS = [("half-c", 3), ("half-s", 3), ("simul", 2), ("rst-c", 2), ("rst-s", 2), ("backpressure", 1)]
+SCRIPTS = [("half-c", 3), ("half-s", 3), ("simul", 2), ("rst-c", 2), ("rst-s", 2), ("rst-c-hold", 2), ("rst-s-hold", 2), ("backpressure", 1)]
 
 
 def wchoice(rng, items):
@@ -57,7 +57,9 @@ def gen(rng, tier, i):
     sc.cfg["timeouts"] = {"idle": 600}
     script = wchoice(rng, SCRIPTS)
     if mode != "mem" and script in ("rst-c", "rst-s"):
-        script = rng.choice(["half-c", "half-s", "simul"])
+        # on the kernel lane (AF_UNIX pairs) an abort is a close with unread data in the receive queue: only the
+        # -hold variants arrange for that
+        script = rng.choice(["half-c", "half-s", "simul", script + "-hold"])
     oip, oport = sc.origin_ip(), sc.port()
     li = make_listener(sc, lk, target="%s:%d" % (oip, oport))
     ci = make_connector(sc, ck)
@@ -90,6 +92,19 @@ def gen(rng, tier, i):
     elif script == "rst-s":
         og = [op("send", fill=[S2, b]), op("sleep", ms=rng.choice([0, 1, 5, 50])), op("reset", label="rst")]
         cl = [op("par", w=[op("send", fill=[S1, a], on_fail="continue")], r=[op("recv_eof", timeout_ms=big, label="end", keep=0)])]
+    elif script in ("rst-c-hold", "rst-s-hold"):
+        # the survivor has sent d >= 1 bytes which the aborter never reads (so that the abort is a reset on every lane), then
+        # stays silent, keeps its socket open after it saw the end, and finally probes with a write: by then the proxy must
+        # have closed that socket as well, and the connection must be gone from /api/live
+        d = max(1, b)
+        hold = Gus // 1000 + 4000
+        # (the survivor only sends once the aborter has finished its handshake reads, so that the bytes really stay unread)
+        ab = [op("set", flag="ready"), op("send", fill=[S1, a]), op("sleep", ms=rng.choice([1500, 3000])), op("reset", label="rst"), op("set", flag="aborted")]
+        sv = [op("wait", flag="ready", timeout_ms=big), op("send", fill=[S2, d]), op("recv_eof", timeout_ms=big, label="end", keep=0, on_fail="continue"), op("sleep", ms=hold),
+              op("send", hex="00", on_fail="continue", label="probe1"), op("sleep", ms=1000), op("send", hex="00", on_fail="continue", label="probe2"), op("close")]
+        cl, og = (ab, sv) if script == "rst-c-hold" else (sv, ab)
+        sc.api_call("live", "GET", "/api/live", start_flag="aborted")
+        sc.actors[-1]["ops"].insert(0, op("sleep", ms=Gus // 1000 + 2000))
     else:  # backpressure: origin never reads; client writes a lot then closes; origin then closes
         a = max(a, 300000)
         cl = [op("send", fill=[S1, a], timeout_ms=20000, on_fail="continue", label="blocked"), op("close", label="cclose")]
@@ -174,8 +189,21 @@ def oracle(plan, out):
             if post is not None and post["res"] != "ok":
                 v("opposite-direction-cut", "%s: bytes sent by the peer after it saw EOF did not arrive: %s" % (first, post["res"]))
             need_eof(first, "eof", lab(second, "fin"), "opposite direction")
-    elif sc in ("rst-c", "rst-s"):
-        aborter, other = ("c", oid) if sc == "rst-c" else (oid, "c")
+    elif sc in ("rst-c", "rst-s", "rst-c-hold", "rst-s-hold"):
+        aborter, other = ("c", oid) if sc.startswith("rst-c") else (oid, "c")
+        if sc.endswith("-hold") and lab(aborter, "rst") is not None:
+            # promptly closed on both sides and recorded as finished, although the survivor keeps its socket open
+            lv = R.history("live")
+            if lv and lv[0] == 200:
+                try:
+                    still = [h.get("id") for h in json.loads(lv[2]) if h.get("listener", "").startswith("l-")]
+                except ValueError:
+                    still = []
+                if still:
+                    v("live-after-abort", "%s aborted at %.3fs; %.0fs later the connection is still listed by /api/live" % (aborter, lab(aborter, "rst")["t1"] / 1e6, Gus / 1e6 + 2))
+            p2 = lab(other, "probe2")
+            if p2 is not None and p2["res"] == "ok":
+                v("socket-open-after-abort", "%s aborted at %.3fs; %s could still write to its connection at %.3fs: the proxy has not closed it" % (aborter, lab(aborter, "rst")["t1"] / 1e6, other, p2["t1"] / 1e6))
         rst = lab(aborter, "rst")
         end = lab(other, "end")
         if rst is not None and end is not None:
